@@ -151,6 +151,35 @@ class Bisync:
                 out.append(n)
         return out
 
+    def every_success_records(self, ctx, rid):
+        """Every non-error return of run_bisync that is not behind the dry_run true edge passes Archive::save: a run that
+        reports success has written the record of what it left (this is also where stale base entries are dropped)."""
+        r, R = self.rfl, self.run
+        cfg = r.cfg
+        saves = {sb for sb, _ in r.calls_to('archive::Archive::save')}
+        if not saves:
+            ctx.missing(rid, 'run_bisync -> Archive::save')
+        dry_true = set()
+        for swb, swt in switch_blocks_on(r, lambda os_: bool(os_) and all(o.path[-1:] == ('dry_run',) for o in os_)):
+            tr, fa = bool_edges(swb, swt)
+            dry_true |= tr
+        if not dry_true:
+            ctx.missing(rid, 'run_bisync: the dry_run test')
+        oks = []
+        for (rb, kind, data) in ret_defs(R):
+            if kind == 'assign' and data['k'] == 'agg' and data.get('vname') == 'Ok':
+                oks.append(rb)
+            elif kind == 'call' and callee(data) != 'std::ops::FromResidual::from_residual':
+                oks.append(rb)
+        if not oks:
+            ctx.missing(rid, 'run_bisync: an Ok return')
+        seen = cfg.reach(0, cut_edges={(e[0], e[1]) for e in dry_true}, cut_blocks=saves)
+        bad = [x for x in oks if x in seen]
+        ctx.check(not bad, rid, 'run_bisync:every-success-records', 'every non-dry-run Ok return passes Archive::save',
+                  'run_bisync can report success without writing the archive: the recorded common state is not what the run left '
+                  '(entries of paths deleted on both sides stay in the base, a later re-creation with the old content is deleted)',
+                  term_loc(R, bad[0]) if bad else None)
+
     def bisync_graph(self):
         cg = callgraph_of(self.F)
         return cg, cg.reach([RUN])
